@@ -413,15 +413,63 @@ def eligibility_mode(n_sarif: int, t0: int, has_sonar: bool, has_dd: bool, hotsp
     return fin(c20._eligibility(n_sarif, t0, has_sonar, has_dd, hotspots))
 
 
+CLI_VALUES = ["", ",", ",,", "a1", "a1,", ",a1", "a1,,b1", "nope", "a1,a1", "b1,a1"]
+
+
+def cli_list_to_selection(v: int, exclude_mode: bool) -> bool:
+    """From the command line to the selection: the real cli.parse_args (CsvListAction) on `--codemod-include=<value>` /
+    `--codemod-exclude=<value>` for 10 values (empty, only commas, ids with leading / trailing / doubled commas, an
+    unknown id, a repeated id, two ids) feeds the real match_codemods over a registry {a1, b1}: an include option that
+    names no known codemod selects NOTHING (it is not treated as absent); listed ids run once, in the order given; an
+    exclude option removes exactly the listed ids.
+    post: _
+    """
+    import contextlib
+    import io
+
+    import codemodder.cli as cli
+    from vlib.core import fin
+
+    k = 0
+    while k < len(CLI_VALUES) - 1:
+        if v % len(CLI_VALUES) == k:
+            break
+        k += 1
+    value = CLI_VALUES[k]
+    ids = ["a1", "b1"]
+    r = registry(ids, ["pixee", "pixee"])
+    argv = ["D", ("--codemod-exclude=" if exclude_mode else "--codemod-include=") + value]
+    buf = io.StringIO()
+    try:
+        with contextlib.redirect_stdout(buf), contextlib.redirect_stderr(buf):
+            ns = cli.parse_args(argv, r)
+    except SystemExit:
+        return fin(True)  # rejected loudly at the command line: nothing runs
+    saved = reg.re
+    reg.re = REAL_RE
+    try:
+        got = [c.id for c in r.match_codemods(ns.codemod_include, ns.codemod_exclude)]
+    finally:
+        reg.re = saved
+    named = [x for x in value.split(",") if x]
+    if exclude_mode:
+        exp = [i for i in ids if i not in named]
+    else:
+        exp = list(dict.fromkeys(x for x in named if x in ids))
+    return fin(got == exp)
+
+
 def warmup():
     eligibility_mode(1, 2, False, True, True)
+    cli_list_to_selection(3, False)
+    cli_list_to_selection(0, True)
 
 
 SPEC = {
     "property": "C17",
     "level": "model_checking",
     "files": ["src/codemodder/registry.py", "src/codemodder/codemodder.py"],
-    "functions": ["codemodder.codemodder.run (how the eligibility mode is derived from the command line)", "codemodder.registry.CodemodRegistry.match_codemods / add_codemod_collection", "DEFAULT_EXCLUDED_CODEMODS", "the regular expressions match_codemods compiles (captured at run time)"],
+    "functions": ["codemodder.codemodder.run (how the eligibility mode is derived from the command line)", "codemodder.cli.parse_args / CsvListAction feeding match_codemods (10 option values x include / exclude)", "codemodder.registry.CodemodRegistry.match_codemods / add_codemod_collection", "DEFAULT_EXCLUDED_CODEMODS", "the regular expressions match_codemods compiles (captured at run time)"],
     "bounds": {
         "quick": "registry of n = 2 codemods (ids symbolic z3 strings, |id| <= 64, printable non-space ASCII without ',' and '*'), origins in {pixee, sonar}; include / exclude lists of length <= 2 over {id of codemod i, an unknown id, 3 wildcard templates}; both eligibility modes; all 2^k decision vectors per configuration; primitive lemmas for 7 wildcard templates in both modes",
         "thorough": "n = 3 codemods, lists of length <= 3 over all 7 wildcard templates (<= 3 wildcards per list)",
@@ -436,5 +484,5 @@ SPEC = {
     "outside": ["load_registered_codemods / entry points (C11)", "CLI de-duplication of comma lists (C20's cli vocabulary)", "registries with more than 3 codemods"],
     "rule": "evaluations = decision vectors executed through the real match_codemods; distinct_nontrivial = distinct (mode, list, eligibility, origins) configurations; solver queries = regex-equivalence lemmas + feasibility of differing vectors",
     "drivers": [primitive_lemmas, structure, planted],
-    "xh": [__import__("vlib.main", fromlist=["Xh"]).Xh("eligibility_mode", 200, 400)],
+    "xh": [__import__("vlib.main", fromlist=["Xh"]).Xh("eligibility_mode", 200, 400), __import__("vlib.main", fromlist=["Xh"]).Xh("cli_list_to_selection", 100, 200)],
 }
